@@ -492,8 +492,10 @@ class StreamWriter(codecs.StreamWriter):
             if self.encoding is not None:
                 if self.encoding == "css":
                     raise ValueError("css not allowed as encoding name")
-                self.streamwriter = codecs.getwriter(self.encoding)(
-                    self.stream, self._errors
+                # an incremental encoder keeps the state of stateful
+                # encodings between the calls
+                self.streamwriter = codecs.getincrementalencoder(self.encoding)(
+                    self._errors
                 )
                 encoding = self.encoding
                 if self.encoding.replace("_", "-").lower() == "utf-8-sig":
@@ -502,7 +504,8 @@ class StreamWriter(codecs.StreamWriter):
             else:
                 self.buffer = input
                 return (b"", 0)
-        return (self.streamwriter.encode(input, errors)[0], li)
+        self.streamwriter.errors = errors
+        return (self.streamwriter.encode(input), li)
 
     def _geterrors(self):
         return self._errors
@@ -541,18 +544,21 @@ class StreamReader(codecs.StreamReader):
                     explicit and not self.force
                 ) or self.encoding is None:  # Take the encoding from the input
                     self.encoding = encoding
-            streamreader = codecs.getreader(self.encoding)
-            streamreader = streamreader(self.stream, self._errors)
-            (output, consumed) = streamreader.decode(input, errors)
+            # an incremental decoder keeps incomplete characters and the
+            # shift state of stateful encodings between the calls
+            streamreader = codecs.getincrementaldecoder(self.encoding)
+            streamreader = streamreader(errors)
+            output = streamreader.decode(input)
             encoding = self.encoding
             if encoding.replace("_", "-").lower() == "utf-8-sig":
                 encoding = "utf-8"
             newoutput = _fixencoding(output, str(encoding), False)
             if newoutput is not None:
                 self.streamreader = streamreader
-                return (newoutput, consumed)
+                return (newoutput, len(input))
             return ("", 0)  # we will create a new streamreader on the next call
-        return self.streamreader.decode(input, errors)
+        self.streamreader.errors = errors
+        return (self.streamreader.decode(input), len(input))
 
     def _geterrors(self):
         return self._errors
